@@ -383,3 +383,8 @@ func TestHistories(t *testing.T) {
 		Rule:    "histories of 2..12 calls over up to 4 instances (batch sizes weighted to 1, 2, 63, 64): Absorb of 0..3 blocks (equal lanes / single-trit differences / all lanes different, optionally split across calls), Squeeze of 0..3 blocks into 1..n lanes, Clone, Reset, rejected calls (batch size 0 / 65, length not a multiple of 243); after every step the bit-sliced state of every instance decoded lane by lane must equal n independent scalar Curl-P-81 sponges and squeezed output = the lane's own sponge; non-trivial = >= 1 absorbed block, >= 1 squeezed block and >= 2 different lanes; distinct by history",
 	})
 }
+
+// FuzzGenHistories: the structured generator driven by Go's coverage-guided fuzzer (thorough tier).
+func FuzzGenHistories(f *testing.F) {
+	h.FuzzSub(f, h.Sub[history]{Prop: "C06", Name: "histories-" + buildVariant, Gen: genHistory, Check: checkHistory})
+}
